@@ -13,7 +13,7 @@ SPEC = {
              'under the fifo tie policy, then random sequences of length 10-80 under every tie policy (a quarter with decimal, not exactly representable times and pauses aimed at due instants, some cancelled while paused), plus generated production lines with dense fault '
              'scripts (maintenance pauses, failures cancel, restores resume) with the same queue model attached; '
              'non-trivial = an event was resumed after a pause of non-zero length that began at a '
-             'non-zero time and later executed; distinct = by hash of the op list and tie policy'),
+             'non-zero time and later executed; distinct = by hash of the op list and tie policy; also: integer-tick clocks above 2**53 and actions that pause and then fail under a caller that catches'),
     'floors': {'quick': {'resumes_nonzero_pause_nonzero_time': 500, 'dispatches_checked': 5000,
                          'events_cancelled': 200, 'resumes_rounding_below_now': 5, 'line_events_resumed': 50, 'line_events_cancelled': 40},
                'thorough': {'resumes_nonzero_pause_nonzero_time': 10000, 'dispatches_checked': 100000,
